@@ -181,3 +181,16 @@ def same_events(ctx, rule, instance, fi, got, want, what, skip_args=()):
     ctx.ok(rule, instance, fi.where(), "%s: %d call(s) agree with the specification: %s" % (what, len(got), _clip(" | ".join(sig(e) for e in got), 300)))
     ctx.sample({"rule": rule, "instance": instance, "calls": [sig(e) for e in got][:6]})
     return True
+
+
+def same_store(ctx, rule, instance, fi, ex, sp, attr):
+    """Obligation: the value the code finally stores to `.attr` equals the specification's.  A missing
+    (or ambiguous) store in the code is a violation of the rule, not an analysis error."""
+    want = sp.stores(attr)
+    if len(want) != 1:
+        raise AnalysisError("specification of %s does not store .%s exactly once" % (fi.qualname, attr))
+    got = ex.stores(attr)
+    if len(got) != 1:
+        ctx.fail(rule, instance, fi.where(), "%s stores .%s %d time(s) on distinct objects; the specification stores it once: %s" % (fi.qualname, attr, len(got), _clip(show(next(iter(want.values()))))), construct=fi.qualname, stmt="store ." + attr)
+        return False
+    return same(ctx, rule, instance, fi, next(iter(got.values())), next(iter(want.values())), "." + attr)
